@@ -15,7 +15,7 @@ RULE = ("plan = (kind, values[0..10 quick / 0..30 thorough]) over every orderabl
         "object of str or of one-digit ints with None); each plan runs sort(dir=±1), rank(min/max/ordinal) and "
         "unique against a comparator / counting reference. Non-trivial: length ≥ 3 with a tie or a missing value, "
         "or length 0, or all-missing, or a string of ≥ 50 characters. Distinct = hash of the plan JSON.")
-CASES = {"quick": 3000, "thorough": 12000}
+CASES = {"quick": 3000, "thorough": 24000}
 FUZZ_RUNS = {"thorough": 30000}     # coverage-guided leg, 8 processes (vlib/fuzz.py)
 ASSUMPTIONS = ["object vectors are generated only where str() order and natural order coincide "
                "(strings; one-digit non-negative ints) because the statement defines no order for objects"]
